@@ -146,6 +146,13 @@ func (f *Fetcher) Fetch(ctx context.Context, txID ids.ID, keys []string) error {
 		f.l.Unlock()
 		return f.err
 	}
+	if _, ok := f.txs[txID]; ok {
+		// The keys of this transaction were already requested (a txID
+		// determines its keys): registering it again would double count
+		// its blockers and release its waiter early.
+		f.l.Unlock()
+		return nil
+	}
 	var (
 		tx       = &tx{keys: keys}
 		tasks    = make([]*task, 0, len(keys))
